@@ -3228,7 +3228,9 @@ class SymlinkCommand : public Command {
   }
   
   virtual CommandSignature getSignature() const override {
-    CommandSignature code(outputs[0]->getName());
+    CommandSignature code(getName());
+    code = code.combine(outputs[0]->getName());
+    code = code.combine(linkOutputPath);
     code = code.combine(contents);
     for (const auto* input: inputs) {
       code = code.combine(input->getName());
